@@ -17,7 +17,7 @@ use std::{
     collections::VecDeque,
     future::Future,
     rc::Rc,
-    task::Poll,
+    task::{Poll, Waker},
 };
 use zlink_core::{service::MethodReply, Call, Connection, Listener, Reply, ReplyError, Service};
 
@@ -44,22 +44,25 @@ struct Rep {
 struct Svc {
     log: Rc<RefCell<Vec<String>>>,
     credits: Rc<RefCell<Vec<u64>>>,
+    wakers: Rc<RefCell<Vec<Option<Waker>>>>,
 }
 
 /// The service's reply stream: hands over its next result (an item, or its end) only while its client has
-/// credit; otherwise `Pending` (the harness polls by hand, so no waker is kept).
+/// credit; otherwise `Pending`, keeping the waker that a `Produce` event for that client wakes.
 struct CStream {
     items: VecDeque<Reply<Rep>>,
     conn: usize,
     credits: Rc<RefCell<Vec<u64>>>,
+    wakers: Rc<RefCell<Vec<Option<Waker>>>>,
 }
 impl futures_util::Stream for CStream {
     type Item = Reply<Rep>;
-    fn poll_next(mut self: std::pin::Pin<&mut Self>, _cx: &mut std::task::Context<'_>) -> Poll<Option<Reply<Rep>>> {
+    fn poll_next(mut self: std::pin::Pin<&mut Self>, cx: &mut std::task::Context<'_>) -> Poll<Option<Reply<Rep>>> {
         let conn = self.conn;
         {
             let mut cr = self.credits.borrow_mut();
             if cr[conn] == 0 {
+                self.wakers.borrow_mut()[conn] = Some(cx.waker().clone());
                 return Poll::Pending;
             }
             cr[conn] -= 1;
@@ -94,6 +97,7 @@ impl Service for Svc {
                 MethodReply::Multi(CStream {
                     conn: (*t / 1000) as usize,
                     credits: self.credits.clone(),
+                    wakers: self.wakers.clone(),
                     items: (0..*n)
                         .map(|i| {
                             let c = match *p {
@@ -114,14 +118,19 @@ impl Service for Svc {
 #[derive(Debug)]
 struct L {
     pending: Rc<RefCell<VecDeque<SSocket>>>,
+    waker: Rc<RefCell<Option<Waker>>>,
 }
 impl Listener for L {
     type Socket = SSocket;
     fn accept(&mut self) -> impl Future<Output = zlink_core::Result<Connection<SSocket>>> {
         let p = self.pending.clone();
-        std::future::poll_fn(move |_| match p.borrow_mut().pop_front() {
+        let w = self.waker.clone();
+        std::future::poll_fn(move |cx| match p.borrow_mut().pop_front() {
             Some(s) => Poll::Ready(Ok(Connection::new(s))),
-            None => Poll::Pending,
+            None => {
+                *w.borrow_mut() = Some(cx.waker().clone());
+                Poll::Pending
+            }
         })
     }
 }
@@ -196,6 +205,10 @@ pub struct Case {
     pub evs: Vec<Ev>,
     /// every call of every connection is buffered before the server runs; fixed connection set
     pub upfront: bool,
+    /// the executor polls the server future only when its waker has been woken (and once at the start), as a real
+    /// executor does; the scripted listener, sockets and reply streams keep the waker of a pending poll and wake it
+    /// when their event happens. A wake-up the server loses shows as a client that is never answered.
+    pub wake_driven: bool,
 }
 
 fn toks(out: &[u8]) -> Vec<String> {
@@ -221,9 +234,14 @@ fn toks(out: &[u8]) -> Vec<String> {
 
 pub fn run_case(c: &Case) -> (Vec<Vec<u8>>, Vec<String>, bool) {
     let pending = Rc::new(RefCell::new(VecDeque::new()));
+    let lwaker: Rc<RefCell<Option<Waker>>> = Rc::new(RefCell::new(None));
     let log = Rc::new(RefCell::new(vec![]));
     let credits = Rc::new(RefCell::new(c.conns.iter().map(|cs| cs.credit).collect::<Vec<u64>>()));
-    let server = zlink_core::Server::new(L { pending: pending.clone() }, Svc { log: log.clone(), credits: credits.clone() });
+    let swakers: Rc<RefCell<Vec<Option<Waker>>>> = Rc::new(RefCell::new(c.conns.iter().map(|_| None).collect()));
+    let server = zlink_core::Server::new(
+        L { pending: pending.clone(), waker: lwaker.clone() },
+        Svc { log: log.clone(), credits: credits.clone(), wakers: swakers.clone() },
+    );
     let mut fut = Box::pin(server.run());
     let nets: Vec<NetRef> = c
         .conns
@@ -235,17 +253,49 @@ pub fn run_case(c: &Case) -> (Vec<Vec<u8>>, Vec<String>, bool) {
         })
         .collect();
     let mut alive = true;
+    let flag = WakeFlag::new();
     for ev in &c.evs {
         match ev {
-            Ev::Connect(i) => pending.borrow_mut().push_back(SSocket(nets[*i].clone())),
-            Ev::Arrive(i, b) => nets[*i].borrow_mut().avail.extend(b.iter().copied()),
-            Ev::Close(i) => nets[*i].borrow_mut().closed = true,
-            Ev::ReadErr(i) => nets[*i].borrow_mut().read_fail = true,
-            Ev::Produce(i, n) => credits.borrow_mut()[*i] += *n,
+            Ev::Connect(i) => {
+                pending.borrow_mut().push_back(SSocket(nets[*i].clone()));
+                if let Some(w) = lwaker.borrow_mut().take() {
+                    w.wake();
+                }
+            }
+            Ev::Arrive(i, b) => {
+                let mut n = nets[*i].borrow_mut();
+                n.avail.extend(b.iter().copied());
+                n.wake();
+            }
+            Ev::Close(i) => {
+                let mut n = nets[*i].borrow_mut();
+                n.closed = true;
+                n.wake();
+            }
+            Ev::ReadErr(i) => {
+                let mut n = nets[*i].borrow_mut();
+                n.read_fail = true;
+                n.wake();
+            }
+            Ev::Produce(i, n) => {
+                credits.borrow_mut()[*i] += *n;
+                if *n > 0 {
+                    if let Some(w) = swakers.borrow_mut()[*i].take() {
+                        w.wake();
+                    }
+                }
+            }
             Ev::Poll => {
-                if alive {
-                    if let Poll::Ready(_) = poll_once(fut.as_mut()) {
+                // wake-driven: an executor polls a task that is scheduled, and again as long as the poll itself
+                // re-schedules it (a future that wakes itself); 10000 such rounds = a task that spins
+                let mut rounds = 0;
+                while alive && (!c.wake_driven || flag.take()) {
+                    if let Poll::Ready(_) = poll_flag(fut.as_mut(), &flag) {
                         alive = false;
+                    }
+                    rounds += 1;
+                    if !c.wake_driven || rounds >= 10_000 {
+                        break;
                     }
                 }
             }
@@ -258,7 +308,12 @@ pub fn run_case(c: &Case) -> (Vec<Vec<u8>>, Vec<String>, bool) {
 }
 
 pub fn line(c: &Case, obs: &(Vec<Vec<u8>>, Vec<String>, bool)) -> String {
-    let mut s = String::from(if c.upfront { "srv F1 D" } else { "srv D" });
+    let mut s = String::from(match (c.upfront, c.wake_driven) {
+        (true, true) => "srv F1 W1 D",
+        (true, false) => "srv F1 D",
+        (false, true) => "srv W1 D",
+        (false, false) => "srv D",
+    });
     for (i, cs) in c.conns.iter().enumerate() {
         let ds: Vec<String> = cs.descs.iter().map(|d| d.tok()).collect();
         s.push_str(&format!(
@@ -458,7 +513,7 @@ pub fn gen_case(rng: &mut Rng, g: &GenOpts) -> Case {
     evs.push(Ev::Poll);
     // a connection that was cut mid-burst by plan 2/3 did not deliver all its frames: its script keeps
     // only what arrived in full (the model interprets frames by position)
-    Case { conns, evs, upfront: false }
+    Case { conns, evs, upfront: false, wake_driven: false }
 }
 
 /// Fairness cases: 2..5 connections, some of them flooders with many pipelined calls; everything is
@@ -498,7 +553,7 @@ pub fn gen_upfront(rng: &mut Rng) -> Case {
     for _ in 0..rng.range(1, 4) {
         evs.push(Ev::Poll);
     }
-    Case { conns, evs, upfront: true }
+    Case { conns, evs, upfront: true, wake_driven: false }
 }
 
 pub fn main(o: &Opts, which: &str) {
@@ -513,7 +568,10 @@ pub fn main(o: &Opts, which: &str) {
     for k in 0..n {
         let mut r2 = Rng::new(rng.next());
         em.case(|| {
-            let c = if which == "srv-fair" && k % 2 == 0 { gen_upfront(&mut r2) } else { gen_case(&mut r2, &g) };
+            let mut c = if which == "srv-fair" && k % 2 == 0 { gen_upfront(&mut r2) } else { gen_case(&mut r2, &g) };
+            // two cases in five run under a wake-driven executor (chosen by the case number: the case itself is the
+            // one the eager executor would get)
+            c.wake_driven = k % 5 == 1 || k % 5 == 3;
             let obs = run_case(&c);
             vec![line(&c, &obs)]
         });
